@@ -72,6 +72,13 @@ func loadProgram(repo string, pkgPaths []string) (*program, error) {
 			}
 		}
 	}
+	packages.Visit(pkgs, nil, func(pp *packages.Package) {
+		if strings.HasPrefix(pp.PkgPath, repoModule) {
+			if _, ok := p.ppkgs[pp.Name]; !ok {
+				p.ppkgs[pp.Name] = pp
+			}
+		}
+	})
 	for _, sp := range p.spkgs {
 		p.indexPackage(sp)
 	}
